@@ -243,4 +243,243 @@ theorem vertex_cells_link1 {m : Map X} (h : WF 3 m) {l r : Nat}
   · rename_i hx
     exact sameCell_add_pair (vertex_gstep_link1 h hl0 hr0 hl hr h1 h0 hx) d e
 
+/-! ## A4: the vertex generator steps after a 2-link -/
+
+/-- the map after `two_link_core l r` -/
+def link2 (m : Map X) (l r : Nat) : Map X := (m.setβ 2 l r).setβ 2 r l
+
+theorem link2_β {m : Map X} (h : WF 3 m) {l r : Nat} (hl : l < m.n) (hr : r < m.n) (j e : Nat) :
+    (link2 m l r).β j e = if 2 = j ∧ r = e then l else if 2 = j ∧ l = e then r else m.β j e := by
+  unfold link2
+  have s1 : Sized 3 (m.setβ 2 l r) := h.toSized.setβ _ _ _
+  rw [s1.β_setβ (by omega) (by simpa [Map.n_setβ] using hr), h.toSized.β_setβ (by omega) hl]
+
+/-- a symmetric pair of generator steps between two non-null darts (dropped when `q` is null) -/
+def Pair (p q a b : Nat) : Prop := q ≠ 0 ∧ ((a = p ∧ b = q) ∨ (a = q ∧ b = p))
+
+/-- **A4 (2-link)**: the vertex generator steps of the 2-linked map are the old ones plus the pairs
+    `l — β1 r` and `r — β1 l` (a pair is dropped when its second component is null) -/
+theorem vertex_gstep_link2 {m : Map X} (h : WF 3 m) {l r : Nat}
+    (hl0 : l ≠ 0) (hr0 : r ≠ 0) (hlr : l ≠ r) (hl : l < m.n) (hr : r < m.n)
+    (h2l : m.β 2 l = 0) (h2r : m.β 2 r = 0) (a b : Nat) :
+    GStep (g2 (link2 m l r) .vertex) m.n a b ↔
+      (GStep (g2 m .vertex) m.n a b ∨ Pair l (m.β 1 r) a b ∨ Pair r (m.β 1 l) a b) := by
+  have e := link2_β h hl hr
+  have n1 := h.null 1 (by omega)
+  have n2 := h.null 2 (by omega)
+  have n0 := h.null 0 (by omega)
+  have hrl : ¬ r = l := fun hh => hlr hh.symm
+  -- β2 of the linked map
+  have b2 : ∀ x, (link2 m l r).β 2 x = if x = r then l else if x = l then r else m.β 2 x := by
+    intro x
+    rw [e 2 x]
+    by_cases c1 : r = x
+    · subst c1; simp
+    · have c1' : ¬ x = r := fun hh => c1 hh.symm
+      by_cases c2 : l = x
+      · subst c2; simp [c1, c1']
+      · have c2' : ¬ x = l := fun hh => c2 hh.symm
+        simp [c1, c1', c2, c2']
+  have b1 : ∀ x, (link2 m l r).β 1 x = m.β 1 x := by
+    intro x; rw [e 1 x]; simp
+  have b0 : ∀ x, (link2 m l r).β 0 x = m.β 0 x := by
+    intro x; rw [e 0 x]; simp
+  -- first image: β1 (β2' x)
+  have im1 : ∀ x, (link2 m l r).β 1 ((link2 m l r).β 2 x) =
+      if x = r then m.β 1 l else if x = l then m.β 1 r else m.β 1 (m.β 2 x) := by
+    intro x; rw [b1, b2]
+    by_cases c1 : x = r
+    · subst c1; simp
+    · by_cases c2 : x = l
+      · subst c2; simp [hlr]
+      · simp [c1, c2]
+  -- second image: β2' (β0 x); β0 x = l iff x = β1 l, β0 x = r iff x = β1 r  (x non-null, in range)
+  have im2 : ∀ x, x ≠ 0 → x < m.n → (link2 m l r).β 2 ((link2 m l r).β 0 x) =
+      if m.β 0 x = r then l else if m.β 0 x = l then r else m.β 2 (m.β 0 x) := by
+    intro x _ _; rw [b0, b2]
+  have back_l : ∀ x, x ≠ 0 → x < m.n → (m.β 0 x = l ↔ (x = m.β 1 l ∧ m.β 1 l ≠ 0)) := by
+    intro x hx0 hx
+    constructor
+    · intro hh
+      have hne : m.β 0 x ≠ 0 := by rw [hh]; exact hl0
+      have := h.inv10 x hx hne
+      rw [hh] at this
+      exact ⟨this.symm, by rw [this]; exact hx0⟩
+    · rintro ⟨rfl, hne⟩
+      exact h.inv01 l hl hne
+  have back_r : ∀ x, x ≠ 0 → x < m.n → (m.β 0 x = r ↔ (x = m.β 1 r ∧ m.β 1 r ≠ 0)) := by
+    intro x hx0 hx
+    constructor
+    · intro hh
+      have hne : m.β 0 x ≠ 0 := by rw [hh]; exact hr0
+      have := h.inv10 x hx hne
+      rw [hh] at this
+      exact ⟨this.symm, by rw [this]; exact hx0⟩
+    · rintro ⟨rfl, hne⟩
+      exact h.inv01 r hr hne
+  unfold GStep g2 Pair
+  simp only [List.mem_cons, List.mem_singleton, List.not_mem_nil, or_false]
+  constructor
+  · rintro ⟨ha0, ha, hb0, hb⟩
+    rw [im1 a, im2 a ha0 ha] at hb
+    rcases hb with hb | hb
+    · by_cases c1 : a = r
+      · simp only [c1, if_true] at hb
+        subst c1
+        exact Or.inr (Or.inr ⟨by rw [← hb]; exact hb0, Or.inl ⟨rfl, hb⟩⟩)
+      · simp only [c1, if_false] at hb
+        by_cases c2 : a = l
+        · simp only [c2, if_true] at hb
+          subst c2
+          exact Or.inr (Or.inl ⟨by rw [← hb]; exact hb0, Or.inl ⟨rfl, hb⟩⟩)
+        · simp only [c2, if_false] at hb
+          exact Or.inl ⟨ha0, ha, hb0, Or.inl hb⟩
+    · by_cases c1 : m.β 0 a = r
+      · simp only [c1, if_true] at hb
+        obtain ⟨ha', hne⟩ := (back_r a ha0 ha).1 c1
+        exact Or.inr (Or.inl ⟨hne, Or.inr ⟨ha', hb⟩⟩)
+      · simp only [c1, if_false] at hb
+        by_cases c2 : m.β 0 a = l
+        · simp only [c2, if_true] at hb
+          obtain ⟨ha', hne⟩ := (back_l a ha0 ha).1 c2
+          exact Or.inr (Or.inr ⟨hne, Or.inr ⟨ha', hb⟩⟩)
+        · simp only [c2, if_false] at hb
+          exact Or.inl ⟨ha0, ha, hb0, Or.inr hb⟩
+  · rintro (⟨ha0, ha, hb0, hb⟩ | ⟨hq, hp⟩ | ⟨hq, hp⟩)
+    · refine ⟨ha0, ha, hb0, ?_⟩
+      rw [im1 a, im2 a ha0 ha]
+      rcases hb with hb | hb
+      · -- old first image: a ∉ {l, r} because β2 l = β2 r = 0 gives a null image
+        have c1 : ¬ a = r := by intro hh; rw [hh, h2r, n1] at hb; exact hb0 hb
+        have c2 : ¬ a = l := by intro hh; rw [hh, h2l, n1] at hb; exact hb0 hb
+        left; simp [c1, c2, hb]
+      · have c1 : ¬ m.β 0 a = r := by intro hh; rw [hh, h2r] at hb; exact hb0 hb
+        have c2 : ¬ m.β 0 a = l := by intro hh; rw [hh, h2l] at hb; exact hb0 hb
+        right; simp [c1, c2, hb]
+    · -- pair l — β1 r
+      have hqn : m.β 1 r < m.n := h.range 1 (by omega) r hr
+      rcases hp with ⟨rfl, rfl⟩ | ⟨rfl, rfl⟩
+      · refine ⟨hl0, hl, hq, ?_⟩
+        rw [im1]; left; simp [hlr]
+      · refine ⟨hq, hqn, hl0, ?_⟩
+        rw [im2 _ hq hqn]
+        have : m.β 0 (m.β 1 r) = r := h.inv01 r hr hq
+        right; simp [this]
+    · -- pair r — β1 l
+      have hqn : m.β 1 l < m.n := h.range 1 (by omega) l hl
+      rcases hp with ⟨rfl, rfl⟩ | ⟨rfl, rfl⟩
+      · refine ⟨hr0, hr, hq, ?_⟩
+        rw [im1]; left; simp
+      · refine ⟨hq, hqn, hr0, ?_⟩
+        rw [im2 _ hq hqn]
+        have : m.β 0 (m.β 1 l) = l := h.inv01 l hl hq
+        right; simp [this, hlr]
+
+/-- adding a `Pair` to a generator relation: the cells of `p` and `q` are united (nothing happens
+    when `q` is null).  Stated for an arbitrary relation `R` playing the role of `SameCell g n`
+    through its generator-step characterisation. -/
+theorem sameCell_add_Pair {g g' : Nat → List Nat} {n p q : Nat}
+    (hstep : ∀ a b, GStep g' n a b ↔ (GStep g n a b ∨ Pair p q a b)) (d e : Nat) :
+    SameCell g' n d e ↔ if q = 0 then SameCell g n d e else United g n p q d e := by
+  split
+  · rename_i hq
+    apply sameCell_congr
+    intro a b
+    rw [hstep]
+    constructor
+    · rintro (h | ⟨hne, _⟩)
+      · exact h
+      · exact absurd hq hne
+    · exact Or.inl
+  · rename_i hq
+    apply sameCell_add_pair
+    intro a b
+    rw [hstep]
+    unfold Pair
+    constructor
+    · rintro (h | ⟨_, h⟩)
+      · exact Or.inl h
+      · exact Or.inr h
+    · rintro (h | h)
+      · exact Or.inl h
+      · exact Or.inr ⟨hq, h⟩
+
+/-! ## two pairs at once (2-link) -/
+
+/-- `g` plus the symmetric pair `p — q` (nothing when `q` is null) -/
+def addPair (g : Nat → List Nat) (p q : Nat) : Nat → List Nat := fun x =>
+  g x ++ (if q ≠ 0 ∧ x = p then [q] else []) ++ (if q ≠ 0 ∧ x = q then [p] else [])
+
+theorem gstep_addPair {g : Nat → List Nat} {n p q : Nat} (hp0 : p ≠ 0) (hp : p < n) (hq : q ≠ 0 → q < n)
+    (a b : Nat) : GStep (addPair g p q) n a b ↔ (GStep g n a b ∨ Pair p q a b) := by
+  unfold GStep addPair Pair
+  simp only [List.mem_append]
+  constructor
+  · rintro ⟨ha0, ha, hb0, hb⟩
+    rcases hb with (hb | hb) | hb
+    · exact Or.inl ⟨ha0, ha, hb0, hb⟩
+    · split at hb
+      · rename_i hc
+        simp only [List.mem_singleton] at hb
+        exact Or.inr ⟨hc.1, Or.inl ⟨hc.2, hb⟩⟩
+      · simp at hb
+    · split at hb
+      · rename_i hc
+        simp only [List.mem_singleton] at hb
+        exact Or.inr ⟨hc.1, Or.inr ⟨hc.2, hb⟩⟩
+      · simp at hb
+  · rintro (⟨ha0, ha, hb0, hb⟩ | ⟨hq0, (⟨rfl, rfl⟩ | ⟨rfl, rfl⟩)⟩)
+    · exact ⟨ha0, ha, hb0, Or.inl (Or.inl hb)⟩
+    · refine ⟨hp0, hp, hq0, Or.inl (Or.inr ?_)⟩
+      simp [hq0]
+    · refine ⟨hq0, hq hq0, hp0, Or.inr ?_⟩
+      simp [hq0]
+
+/-- uniting the classes of `p` and `q` in an arbitrary relation -/
+def UnitedR (R : Nat → Nat → Prop) (p q d e : Nat) : Prop :=
+  R d e ∨ (R d p ∧ R q e) ∨ (R d q ∧ R p e)
+
+theorem united_congr {g1 : Nat → List Nat} {n : Nat} {R : Nat → Nat → Prop}
+    (hR : ∀ d e, SameCell g1 n d e ↔ R d e) (p q d e : Nat) :
+    United g1 n p q d e ↔ UnitedR R p q d e := by
+  unfold United UnitedR
+  simp only [hR]
+
+/-- **cell calculus of a 2-link**: on a WF map, after 2-linking two distinct 2-free darts `l`, `r`,
+    the vertex cells are the old ones with (1) the cells of `l` and `β1 r` united, then (2) the
+    cells of `r` and `β1 l` united; a union is skipped when the β1 image is null; every other cell
+    is unchanged -/
+theorem vertex_cells_link2 {m : Map X} (h : WF 3 m) {l r : Nat}
+    (hl0 : l ≠ 0) (hr0 : r ≠ 0) (hlr : l ≠ r) (hl : l < m.n) (hr : r < m.n)
+    (h2l : m.β 2 l = 0) (h2r : m.β 2 r = 0) :
+    ∃ R : Nat → Nat → Prop,
+      (∀ d e, R d e ↔ if m.β 1 r = 0 then SameCell (g2 m .vertex) m.n d e
+                       else United (g2 m .vertex) m.n l (m.β 1 r) d e) ∧
+      (∀ d e, SameCell (g2 (link2 m l r) .vertex) m.n d e ↔
+        if m.β 1 l = 0 then R d e else UnitedR R r (m.β 1 l) d e) := by
+  let g1 := addPair (g2 m .vertex) l (m.β 1 r)
+  have hqa : m.β 1 r ≠ 0 → m.β 1 r < m.n := fun _ => h.range 1 (by omega) r hr
+  have step1 : ∀ a b, GStep g1 m.n a b ↔ (GStep (g2 m .vertex) m.n a b ∨ Pair l (m.β 1 r) a b) :=
+    gstep_addPair hl0 hl hqa
+  have step2 : ∀ a b, GStep (g2 (link2 m l r) .vertex) m.n a b ↔
+      (GStep g1 m.n a b ∨ Pair r (m.β 1 l) a b) := by
+    intro a b
+    rw [vertex_gstep_link2 h hl0 hr0 hlr hl hr h2l h2r, step1]
+    constructor
+    · rintro (h1 | h1 | h1)
+      · exact Or.inl (Or.inl h1)
+      · exact Or.inl (Or.inr h1)
+      · exact Or.inr h1
+    · rintro ((h1 | h1) | h1)
+      · exact Or.inl h1
+      · exact Or.inr (Or.inl h1)
+      · exact Or.inr (Or.inr h1)
+  refine ⟨SameCell g1 m.n, fun d e => sameCell_add_Pair step1 d e, ?_⟩
+  intro d e
+  have := sameCell_add_Pair step2 d e
+  rw [this]
+  split
+  · rfl
+  · exact united_congr (fun _ _ => Iff.rfl) _ _ _ _
+
 end HC.CellCalc
